@@ -18,7 +18,7 @@ import (
 // model's state must be quiescent and the file server must have seen FidDestroy exactly once for
 // every fid object.
 func genC11fid(c *Ctx) {
-	genFidTable(c, "C11", []string{"retain-vs-close", "dying-reuse", "mixed", "destroy-overlap", "clunk-and-user"}, c.scale(150, 5000))
+	genFidTable(c, "C11", []string{"retain-vs-close", "dying-reuse", "mixed", "destroy-overlap", "clunk-and-user", "newfid-twice"}, c.scale(150, 5000))
 	genC11ufs(c)
 }
 
@@ -181,6 +181,44 @@ func genFidTable(c *Ctx, prop string, kinds []string, n int) {
 			s.release(ridC)
 			time.Sleep(time.Duration(500+r.Intn(3000)) * time.Microsecond)
 			s.release(ridU)
+		case "newfid-twice":
+			// a request creating a fid is executing when a second one names the same new number:
+			// the second is refused, the number stays the first one's
+			nfid := uint32(60)
+			rid := s.nreqs()
+			f0 := s.nframes()
+			s.mu.Lock()
+			s.plans[rid] = plan{gate: true, async: r.Intn(3) == 0}
+			s.mu.Unlock()
+			mk := func(tag uint16) []byte {
+				if r.Intn(4) == 0 {
+					return s.send(tag, func(fc *g.Fcall) error { return g.PackTattach(fc, nfid, g.NOFID, "u", "", 0, false) })
+				}
+				src := uint32(r.Intn(nf + 1))
+				return s.send(tag, func(fc *g.Fcall) error { return g.PackTwalk(fc, src, nfid, nil) })
+			}
+			s.write(mk(50))
+			s.waitEntered([]int{rid}, f0, 2*time.Second)
+			s.write(mk(51))
+			s.waitFrames(f0+1, 2*time.Second)
+			s.mu.Lock()
+			if len(s.fr) > f0 && s.fr[f0].tag == 51 && s.fr[f0].typ != g.Rerror {
+				s.mu.Unlock()
+				c.oracleFail("C04/newfid-in-use-accepted", fmt.Sprintf("fid %d was being created by an executing request and a second request creating it was answered with type %d", nfid, s.fr[f0].typ), line)
+				s.mu.Lock()
+			}
+			s.mu.Unlock()
+			s.release(rid)
+			s.waitFrames(f0+2, 2*time.Second)
+			if r.Intn(2) == 0 {
+				if f := s.rpc(52, func(fc *g.Fcall) error { return g.PackTstat(fc, nfid) }); f == nil || f.typ != g.Rstat {
+					c.oracleFail("C04/valid-fid-refused", fmt.Sprintf("fid %d was made valid by a successful request and the next request on it was refused", nfid), line)
+				}
+			}
+			if r.Intn(3) == 0 {
+				s.rpc(53, func(fc *g.Fcall) error { return g.PackTclunk(fc, nfid) })
+			}
+			s.c.Close()
 		case "mixed":
 			// a burst of pipelined walks, stats and clunks with goroutines parked all over the fid
 			// table, and a disconnect in the middle of it
